@@ -483,8 +483,28 @@ def isolate_crash(prop, tier, seeds, owners, max_found=2):
                             '--wal', wal], env=env, capture_output=True,
                            text=True, timeout=600)
         if os.path.exists(wal + '.result'):
-            os.unlink(wal)
-            os.unlink(wal + '.result')
+            # the run completed: an ordinary violation found by it still
+            # counts (the crashed pool lost every worker's results)
+            try:
+                res = json.load(open(wal + '.result'))
+                events = [json.loads(ln) for ln in open(wal) if ln.strip()]
+            finally:
+                os.unlink(wal)
+                os.unlink(wal + '.result')
+            v = res.get('viol')
+            if v and owns(owners, v['oracle']) and len(found) < max_found:
+                cfg = dict(res['cfg'])
+                small = events[:v['event'] + 1]
+                try:
+                    small, v, _ = shrink(small, cfg, load_known(), v,
+                                         budget_s=15, owners=owners)
+                except Exception:  # noqa
+                    pass
+                path = write_replay(prop, seed, small, cfg, v,
+                                    'after-pool-crash', len(events))
+                found.append({'seed': seed, 'oracle': v['oracle'],
+                              'detail': v['detail'][:500], 'replay': path,
+                              'events': len(small)})
             return
         if not os.path.exists(wal):
             return
